@@ -331,6 +331,40 @@ func DischargeAll(obls []*Obligation, dir string, timeoutS, seed, workers int, a
 					o.Status = "skipped"
 					continue
 				}
+				if len(o.Parts) > 0 {
+					// a grouped conjunction: one query for all conjuncts, with a short budget
+					g := *o
+					g.Parts = nil
+					qt := 4
+					if qt > timeoutS {
+						qt = timeoutS
+					}
+					Discharge(&g, dir, qt, seed, false)
+					if g.Status == "unsat" {
+						for _, p := range o.Parts {
+							p.Status, p.Solver, p.ViaGroup = "unsat", g.Solver+" (grouped)", true
+						}
+						o.Parts[0].Seconds = g.Seconds
+						o.Status = "unsat"
+						continue
+					}
+					bad := false
+					for _, p := range o.Parts {
+						Discharge(p, dir, timeoutS, seed, all)
+						if p.Status != "unsat" {
+							bad = true
+							mu.Lock()
+							failures++
+							mu.Unlock()
+						}
+					}
+					if bad {
+						o.Status = "parts-failed"
+					} else {
+						o.Status = "unsat"
+					}
+					continue
+				}
 				Discharge(o, dir, timeoutS, seed, all)
 				ok := (!o.Vacuity && o.Status == "unsat") || (o.Vacuity && o.Status == "sat")
 				if !ok {
